@@ -256,7 +256,11 @@ func deriveInput(rc *RunCtx, x string, hot []int, allow contentFaults) (string, 
 		case kind == 5 && allow.reencode:
 			// what a file picks up on its way through other tools: a byte order mark, CR LF line
 			// ends, a legacy single-byte encoding of one non-ASCII character
-			switch simrt.Choose(3) {
+			switch simrt.Choose(4) {
+			case 3:
+				// zero padding at the end (block-padded files, C strings)
+				d += strings.Repeat("\x00", 1+simrt.Choose(3))
+				fired = append(fired, "nul-pad")
 			case 0:
 				if !strings.HasPrefix(d, "\xef\xbb\xbf") {
 					d = "\xef\xbb\xbf" + d
